@@ -104,41 +104,29 @@ theorem shl_pow (P : Nat) (hP : 1 ≤ P) : Go.shl 1 ((P : Int) - 1) = (2:Int) ^ 
   have : ((P : Int) - 1) = ((P - 1 : Nat) : Int) := by omega
   rw [this]; simp [Go.shl]
 
-/-- where the code's prediction equals the standard's: first sample; interior, every predictor;
-    first line for predictors 1, 4, 5; line starts for predictors 1, 2, 4, 6 -/
-theorem encPredicted_conforms (P sel row col : Nat) (nb : JLL.Nb) (hP : 1 ≤ P) (hs : 1 ≤ sel ∧ sel ≤ 7)
-    (hok : (row = 0 ∧ col = 0) ∨ (row > 0 ∧ col > 0) ∨
-           (row = 0 ∧ (sel = 1 ∨ sel = 4 ∨ sel = 5)) ∨
-           (col = 0 ∧ (sel = 1 ∨ sel = 2 ∨ sel = 4 ∨ sel = 6))) :
+/-- the code's prediction (jpeg/lossless since fix 946feeb) equals the standard's H.1.2.1 prediction at
+    EVERY position, for every predictor 1..7 -/
+theorem encPredicted_conforms (P sel row col : Nat) (nb : JLL.Nb) (hP : 1 ≤ P) (hs : 1 ≤ sel ∧ sel ≤ 7) :
     JLL.encPredicted P sel row col nb = px P 0 sel row col nb.left nb.up nb.upLeft := by
   unfold JLL.encPredicted px
   simp only
   rw [shl_pow P hP]
   generalize (2:Int) ^ (P - 0 - 1) = H
-  have : sel = 1 ∨ sel = 2 ∨ sel = 3 ∨ sel = 4 ∨ sel = 5 ∨ sel = 6 ∨ sel = 7 := by omega
   by_cases hr : row = 0 <;> by_cases hc : col = 0
   · subst hr; subst hc; simp
   · subst hr
     have hc' : (col : Int) > 0 := by omega
     have hc'' : ¬ ((col : Int) = 0) := by omega
-    rcases hok with h|h|h|h
-    · omega
-    · omega
-    · rcases h.2 with h|h|h <;> subst h <;> simp [Gen.JpegLossless.Predictor, JLL.shr1, hc] <;> omega
-    · omega
+    simp [hc, hc', hc'']
   · subst hc
     have hr' : (row : Int) > 0 := by omega
     have hr'' : ¬ ((row : Int) = 0) := by omega
-    rcases hok with h|h|h|h
-    · omega
-    · omega
-    · omega
-    · rcases h.2 with h|h|h|h <;> subst h <;> simp [Gen.JpegLossless.Predictor, JLL.shr1, hr] <;> omega
+    simp [hr, hr', hr'']
   · have hr' : (row : Int) > 0 := by omega
     have hc' : (col : Int) > 0 := by omega
     have hr'' : ¬ ((row : Int) = 0) := by omega
     have hc'' : ¬ ((col : Int) = 0) := by omega
-    simp only [hr, hc, hr', hc', hr'', hc'', if_true, if_false, and_self, true_and]
+    simp only [hr, hc, hr', hc', hr'', hc'', if_true, if_false, and_self, true_and, false_and]
     exact predictor_agrees sel _ _ _ hs
 
 /-- SV1 (selection value 1) follows the standard's rule at every position -/
@@ -146,7 +134,6 @@ theorem sv1Predicted_conforms (P row col : Nat) (nb : JLL.Nb) (hP : 1 ≤ P) :
     JLL.sv1Predicted P row col nb = px P 0 1 row col nb.left nb.up nb.upLeft := by
   rw [JLL.sv1Predicted_eq_enc P row col nb (by omega) (by omega)]
   have := encPredicted_conforms P 1 row col nb hP (by omega)
-    (by by_cases hr : row = 0 <;> by_cases hc : col = 0 <;> omega)
   simpa using this
 
 end T81H
